@@ -543,6 +543,27 @@ pub fn adversarial() -> Vec<Vec<u8>> {
             }
         }
     }
+    // close capsules whose reason is around the 1024-byte limit, with a multi-byte character at every alignment relative to it
+    // (the limit is a byte count; a reason may not be cut inside a character)
+    for ch in ["\u{e9}", "\u{20ac}", "\u{1f44b}"] {
+        for lead in 1018usize..=1027 {
+            let mut r = vec![b'r'; lead];
+            r.extend_from_slice(ch.as_bytes());
+            v.push(rc::close_capsule(3, &r));
+            r.extend_from_slice(b"tail");
+            v.push(rc::close_capsule(3, &r));
+        }
+        for n in 250usize..=520 {
+            let r = ch.repeat(n);
+            if (1018..=1032).contains(&r.len()) {
+                v.push(rc::close_capsule(4, r.as_bytes()));
+            }
+        }
+    }
+    for len in [1023usize, 1024, 1025, 2000, 4000] {
+        v.push(rc::close_capsule(5, &vec![b'a'; len]));
+        v.push(rc::close_capsule(5, &vec![0xff; len]));
+    }
     // session / quarter ids at the edges
     for sid in [rc::VARINT_MAX, rc::VARINT_MAX - 1, rc::VARINT_MAX - 2, rc::VARINT_MAX - 3, 1 << 60, (1 << 60) - 1, (1 << 60) + 1] {
         v.push(rc::wt_signal_encode(sid));
